@@ -144,6 +144,14 @@ def base_files(tier):
                 b'#..file:\n#...meta: format=json, length=%d\n%s'
                 b'#...diff: length=%d\n%s'
                 % (len(pb), pb, len(js), js, len(js), js, len(pb), pb)))
+    # what the writer emits for preamble='\n' / '\n\n' (an empty commit
+    # message): indentation and nothing else
+    out.append(('blank-preambles', b'#diffx: encoding=utf-8, version=1.0\n'
+                b'#.preamble: indent=4, length=5, line_endings=unix\n    \n'
+                b'#.change:\n'
+                b'#..preamble: indent=2, length=6, line_endings=unix\n'
+                b'  \n \n\n'
+                b'#..file:\n#...meta: format=json, length=11\n{"a": "x"}\n'))
     if tier == 'thorough':
         from mc.props.c07 import extra_files
         out += extra_files()[:2]
